@@ -64,6 +64,9 @@ const (
 func gatedCalls(orig *Spec, F map[string]bool, log []string) []string {
 	var out []string
 	for _, e := range log {
+		if strings.HasPrefix(e, "@") {
+			continue // a directive's field-collection filter call (compared between the two runs, not gated by itself)
+		}
 		i := strings.IndexByte(e, '.')
 		t := orig.find(e[:i])
 		if t == nil {
